@@ -9,7 +9,11 @@
 (*  crash  - the process "crashed" (state dropped, file closed) during the *)
 (*           given request (before / after its backing-store write) or     *)
 (*           between requests;                                             *)
-(*  reopen - contents of the re-opened state.                              *)
+(*  reopen - contents of the re-opened state;                             *)
+(*  raceread - a request issued by one of two clients whose first access   *)
+(*           to the re-opened state overlapped (one of them was parked     *)
+(*           inside the backing store's Load): class and returned values   *)
+(*           must be those of the completely loaded state.                 *)
 (* The sequential specification Store gives the meaning of requests.       *)
 (***************************************************************************)
 EXTENDS Store, Json, IOUtils, SequencesExt
@@ -69,6 +73,14 @@ Reopen(e) ==
      THEN Reject("state-after-restart", [acked |-> base, orWithInflight |-> withInflight], got)
      ELSE /\ store' = FromPairs(got) /\ inflight' = <<>> /\ UNCHANGED <<res, tid, bad>>
 
+RaceRead(e) ==
+  LET o == AbsV(e.req.obj)
+      r == [op |-> e.req.op, k |-> AbsK(e.req.k), owner |-> e.req.owner, exp |-> e.req.exp, obj |-> o]
+  IN IF e.cls \notin Outcomes(r) THEN Reject("first-access-during-load/class", Outcomes(r), e.cls)
+     ELSE IF r.op \in {"get", "list"} /\ AbsKVs(e.out) # Output(r, e.cls)
+          THEN Reject("first-access-during-load/values", Output(r, e.cls), AbsKVs(e.out))
+     ELSE UNCHANGED <<store, res, inflight, tid, bad>>
+
 Next == /\ l <= Len(TraceLog) /\ l' = l + 1
         /\ LET e == TraceLog[l] IN
              IF e.ev = "reset" THEN store' = Empty /\ res' = [cls |-> "ok", out |-> {}] /\ inflight' = <<>> /\ tid' = e.tid /\ bad' = FALSE
@@ -76,6 +88,7 @@ Next == /\ l <= Len(TraceLog) /\ l' = l + 1
              ELSE CASE e.ev = "op" -> Op(e)
                     [] e.ev = "crash" -> Crash(e)
                     [] e.ev = "reopen" -> Reopen(e)
+                    [] e.ev = "raceread" -> RaceRead(e)
                     [] OTHER -> UNCHANGED <<store, res, inflight, tid, bad>>
 Spec == Init /\ [][Next]_tvars
 Consumed == TLCGet("stats").diameter - 1
